@@ -305,7 +305,7 @@ def layered(inp):
         # Collect input.
         empymod_inp = {
             **empymod_opts,
-            'rec': rec.coordinates,
+            'rec': rec.coordinates_abs(src),
             'mrec': rec.xtype != 'electric',
             'depth': oned.grid.nodes_z[1:-1],
             'freqtime': freqs,
@@ -394,6 +394,8 @@ def _get_points(method, src, rec):
     # Get default points.
     p0 = src.center[:2]
     p1 = rec.center[:2]
+    if getattr(rec, 'relative', False):  # Offset from the source center.
+        p1 = p0 + p1
 
     # If source or receiver, we re-set one point and rename the method
     if method == 'source':
